@@ -1,12 +1,14 @@
 /-
   Props/C02.lean — C02: replacing a range is exactly a splice of the flat token sequence.
-  Property theorems only; the work is in Proofs/Toks.lean, Proofs/TokCore.lean, Proofs/ReplaceToks.lean.
+  Property theorems only; the work is in Proofs/Toks.lean, Proofs/TokCore.lean, Proofs/ReplaceToks.lean,
+  Proofs/Reinsert.lean (the success half of re-insertion).
   `Slice.toks` = tokens of the slice content minus its open sides (defined in Proofs/TokCore.lean).
 -/
 import PM.Replace
 import Proofs.Toks
 import Proofs.TokCore
 import Proofs.ReplaceToks
+import Proofs.Reinsert
 namespace PM.C02
 open PM
 
@@ -91,8 +93,7 @@ private theorem splice_id {α} (l : List α) (f t : Nat) (hft : f ≤ t) (ht : t
   rw [List.append_assoc, h1, List.take_append_drop]
 
 /-- **re-inserting a slice where it was cut gives back an equal document** (whenever the replace
-    returns; that it does return is not proved — it is decided on every generated case by the oracle kind
-    `reinsert` of harness/props/c02.py and by the exact tie of `replace`) -/
+    returns; that it does return is `reinsert_succeeds` below) -/
 theorem reinsert (S : Schema) (ty : TypeId) (kids : List Node) (f t : Nat) (s : Slice)
     (kids' : List Node) (hn : fnorm kids = true)
     (hs : sliceKids kids f t = .ok s) (hr : replaceKids S ty kids f t s = .ok kids') :
@@ -106,6 +107,88 @@ theorem reinsert (S : Schema) (ty : TypeId) (kids : List Node) (f t : Nat) (s : 
   rw [hst] at htk
   rw [splice_id _ f t hft (by rw [ftoks_length]; exact ht)] at htk
   exact ftoks_inj kids' kids hn' hn htk
+
+/-- **re-insertion succeeds**: in a schema-valid, normal-form node, replacing the range `f … t` by the
+    slice cut from `f … t` does not fail and returns the same child list.  Every `check_join` along the
+    two cuts compares a node type with itself, every `close` re-validates content that normalises to
+    the original content of a node of the valid document.
+
+    Hypotheses: validity of the node (`validContent` of its own content + `Node.check` of all children),
+    normal form, and — only for the degenerate range `f = t`, where `Node.slice` returns `Slice.empty`
+    without looking at the document — that `f` is a position of the document not inside a surrogate
+    pair.  For `f < t` range and alignment follow from `sliceKids … = .ok s`.
+    (At the excluded points the code agrees with the model: `doc.slice(p, p)` is `Slice.empty` for
+    every `p`, and `doc.replace(p, p, Slice.empty)` raises `ValueError` for `p` outside the document and
+    `UnicodeDecodeError` for `p` between the halves of a surrogate pair.) -/
+theorem reinsert_succeeds (S : Schema) (ty : TypeId) (kids : List Node) (f t : Nat) (s : Slice)
+    (hvc : S.validContent ty kids = true) (hv : ∀ k ∈ kids, S.checkNode k = true)
+    (hn : fnorm kids = true)
+    (he : f = t → f ≤ fsize kids ∧ alignedAt kids f = true)
+    (hs : sliceKids kids f t = .ok s) :
+    replaceKids S ty kids f t s = .ok kids :=
+  replaceKids_reinsert S ty kids f t s hvc ((checkKids_iff S kids).2 hv) hn he hs
+
+/-- for a proper range no side condition is left -/
+theorem reinsert_succeeds_range (S : Schema) (ty : TypeId) (kids : List Node) (f t : Nat) (s : Slice)
+    (hvc : S.validContent ty kids = true) (hv : ∀ k ∈ kids, S.checkNode k = true)
+    (hn : fnorm kids = true) (hft : f ≠ t)
+    (hs : sliceKids kids f t = .ok s) :
+    replaceKids S ty kids f t s = .ok kids :=
+  reinsert_succeeds S ty kids f t s hvc hv hn (fun h => absurd h hft) hs
+
+/-- the document-level statement: `doc.replace(f, t, doc.slice(f, t)) == doc` for a valid
+    (`Node.check`), normal-form element node -/
+theorem node_reinsert_succeeds (S : Schema) (ty : TypeId) (a : Attrs) (m : Marks) (kids : List Node)
+    (f t : Nat) (s : Slice)
+    (hd : S.checkNode (.elem ty a m kids) = true) (hn : (Node.elem ty a m kids).norm = true)
+    (he : f = t → f ≤ fsize kids ∧ alignedAt kids f = true)
+    (hs : (Node.elem ty a m kids).slice f t = .ok s) :
+    S.replace (.elem ty a m kids) f t s = .ok (.elem ty a m kids) := by
+  simp only [checkNode_elem, Bool.and_eq_true] at hd
+  rw [Node.norm_elem] at hn
+  have := replaceKids_reinsert S ty kids f t s hd.1.1 hd.2 hn he hs
+  simp [Schema.replace, this, Except.map]
+
+/-- whenever slicing succeeds on a proper range, re-insertion does: the total form -/
+theorem reinsert_total (S : Schema) (ty : TypeId) (kids : List Node) (f t : Nat)
+    (hvc : S.validContent ty kids = true) (hv : ∀ k ∈ kids, S.checkNode k = true)
+    (hn : fnorm kids = true) (hft : f ≤ t) (ht : t ≤ fsize kids)
+    (hf : alignedAt kids f = true) (hta : alignedAt kids t = true) :
+    ∃ s, sliceKids kids f t = .ok s ∧ replaceKids S ty kids f t s = .ok kids := by
+  obtain ⟨s, hs⟩ := sliceKids_total kids f t hft ht hf hta hn
+  exact ⟨s, hs, reinsert_succeeds S ty kids f t s hvc hv hn (fun _ => ⟨by omega, hf⟩) hs⟩
+
+/-! Non-vacuity of `reinsert_succeeds`: a concrete valid, normal-form document and an open slice of it
+    (`doc(p("ab"), p("c"))`, range 2 … 6, slice `<p("b"), p("c")>` open 1/1) meet all hypotheses. -/
+section Example
+/-- doc(para*), para(text*), text -/
+private def tinyS : Schema :=
+  { nodes := #[
+      { name := "doc", isText := false, isInline := false, isLeaf := false, isAtom := false,
+        inlineContent := false, isolating := false, defining := false, code := false,
+        dfa := #[⟨true, [(1, 0)]⟩], markSet := some [], attrs := [] },
+      { name := "para", isText := false, isInline := false, isLeaf := false, isAtom := false,
+        inlineContent := true, isolating := false, defining := false, code := false,
+        dfa := #[⟨true, [(2, 0)]⟩], markSet := none, attrs := [] },
+      { name := "text", isText := true, isInline := true, isLeaf := true, isAtom := true,
+        inlineContent := false, isolating := false, defining := false, code := false,
+        dfa := #[⟨true, []⟩], markSet := some [], attrs := [] }],
+    marks := #[], top := 0, textTy := 2 }
+
+private def tinyKids : List Node :=
+  [.elem 1 [] [] [.text [97, 98] []], .elem 1 [] [] [.text [99] []]]
+
+private def tinySlice : Slice :=
+  ⟨[.elem 1 [] [] [.text [98] []], .elem 1 [] [] [.text [99] []]], 1, 1⟩
+
+example : replaceKids tinyS 0 tinyKids 2 6 tinySlice = .ok tinyKids := by
+  refine reinsert_succeeds tinyS 0 tinyKids 2 6 tinySlice (by decide) ?_ ?_ (by omega) ?_
+  · simp [tinyKids, Schema.checkNode, Schema.checkKids]
+    decide
+  · simp [tinyKids, fnorm, fnormKids, Node.norm, chainOk, adjOk]
+  · simp [sliceKids, tinyKids, tinySlice, inRange, sliceScan, sliceHere, fcut, fcutLoop, Node.cut,
+      cutText, splitOk, isHigh, isLow, depthAt, Except.map]
+end Example
 
 /- Non-vacuity: the hypotheses `replaceKids … = .ok kids'` / `sliceKids … = .ok s` are met by
    thousands of concrete (document, range, slice) cases on every run: the correspondence check
